@@ -5,6 +5,7 @@ import Driver.Compile
 import Driver.Resolve
 import Driver.WireJ
 import Driver.TiiJ
+import Driver.JsonJ
 
 def main (args : List String) : IO UInt32 := do
   match args with
@@ -24,6 +25,7 @@ def main (args : List String) : IO UInt32 := do
       | _ => Driver.Compile.judge "C14" j)
     return 0
   | ["C11"] => Driver.runJudge Driver.WireJ.judgeC11; return 0
+  | ["C16"] => Driver.runJudge Driver.JsonJ.judge; return 0
   | ["C17"] => Driver.runJudge Driver.TiiJ.judge; return 0
   | ["C18"] => Driver.runJudge Driver.WireJ.judgeC18; return 0
   | ["C05"] => Driver.runJudge Driver.Resolve.judgeC05; return 0
